@@ -243,8 +243,25 @@ def run(sh):
             r, g, b = rng.range(0, 255), rng.range(0, 255), rng.range(0, 255)
             al = rng.choice([1, 0, 0.5, 0.25, 0.999])
             c = "rgba(%d, %d, %d, %s)" % (r, g, b, al)
-            k = rng.below(14)
+            k = rng.below(16)
             x = rng.choice([-1, 0, 0.5, 1, 50, 100, 101, 255, 256, 300, -300, 1.5])
+            if k >= 14:
+                # hue turns, forwards and backwards, by less and more than a full circle: a turn is periodic (d and
+                # d +- 360 give the same colour), adjust-color($hue) is adjust-hue, the hue reads back inside [0, 360),
+                # turning back returns the colour, and whatever comes out is inside the value domain
+                d = rng.choice([-1080, -725, -540, -400, -360, -345, -300, -270, -241, -240, -200, -180, -120, -90, -45, -1,
+                                0, 1, 30, 120, 239, 240, 241, 300, 359, 360, 361, 540, 725, 1080]) + rng.choice([0, 0, 0.5, 7])
+                if k == 14:
+                    e = ("(adjust-hue(%s, %sdeg) == adjust-hue(%s, %sdeg)) and (adjust-hue(%s, %sdeg) == adjust-hue(%s, %sdeg)) and "
+                         "(adjust-hue(%s, %sdeg) == adjust-color(%s, $hue: %sdeg)) and (change-color(%s, $hue: %s) == change-color(%s, $hue: %s)) and "
+                         "(hue(adjust-hue(%s, %sdeg)) >= 0deg) and (hue(adjust-hue(%s, %sdeg)) < 360deg) and (hue(change-color(%s, $hue: %s)) >= 0deg)") % (
+                        c, d, c, d + 360, c, d, c, d - 360, c, d, c, d, c, d, c, d + 720, c, d, c, d, c, d)
+                    exprs.append(e)
+                    meta.append(("true-if", True))
+                else:
+                    exprs.append("(adjust-hue(%s, %sdeg), change-color(%s, $hue: %s), adjust-color(%s, $hue: %sdeg, $lightness: 1%%))" % (c, d, c, d, c, d))
+                    meta.append(("range",))
+                continue
             if k >= 12:
                 # adjust-/scale-/change-color with 1-3 keyword arguments of one colour space plus (often) $alpha, values
                 # in and beyond their ranges: whatever is accepted must be a colour inside the value domain, and the
